@@ -57,7 +57,12 @@ pub fn panic_message(e: &Box<dyn std::any::Any + Send>) -> String {
     }
 }
 
-pub const VERIF_ROOT: &str = "/verif";
+/// root of the verification tree (evidence, replays, known findings, scratch);
+/// the check script exports VERIF_ROOT so that a snapshot of /verif run elsewhere
+/// keeps its outputs to itself
+pub fn verif_root() -> String {
+    std::env::var("VERIF_ROOT").unwrap_or_else(|_| "/verif".to_string())
+}
 const DEFAULT_SEED: u64 = 20261002;
 
 struct PropDef {
@@ -259,7 +264,7 @@ fn worker_main(args: &[String]) {
     let stride: u64 = args[5].parse().unwrap();
     let sample_every: u64 = args.get(6).and_then(|s| s.parse().ok()).unwrap_or(1000);
     std::panic::set_hook(Box::new(|_| {}));
-    let workdir = format!("{}/work/{}", VERIF_ROOT, std::process::id());
+    let workdir = format!("{}/work/{}", verif_root(), std::process::id());
     std::fs::create_dir_all(&workdir).ok();
     let stdout = std::io::stdout();
     let mut shrunk_classes: BTreeSet<String> = BTreeSet::new();
@@ -369,7 +374,7 @@ struct Known {
 
 fn load_known(prop: &str) -> Vec<Known> {
     let mut out = vec![];
-    let path = format!("{}/known_findings.txt", VERIF_ROOT);
+    let path = format!("{}/known_findings.txt", verif_root());
     if let Ok(s) = std::fs::read_to_string(path) {
         for line in s.lines() {
             let line = line.trim();
@@ -486,7 +491,7 @@ fn run_batch(
 }
 
 fn write_replay(prop: &PropDef, tier: Tier, seed: u64, idx: u64, class: &str, v: &Value) -> String {
-    let dir = format!("{}/replays", VERIF_ROOT);
+    let dir = format!("{}/replays", verif_root());
     std::fs::create_dir_all(&dir).ok();
     let path = format!("{}/{}-{}-{}.json", dir, prop.id, seed, idx);
     let body = json!({
@@ -744,7 +749,7 @@ fn run_main(args: &[String]) -> i32 {
         "wall_s": wall,
         "violations": new_violations.len()
     });
-    let evdir = format!("{}/evidence", VERIF_ROOT);
+    let evdir = format!("{}/evidence", verif_root());
     std::fs::create_dir_all(&evdir).ok();
     let evpath = format!("{}/{}.json", evdir, prop.id);
     if let Err(e) = std::fs::write(&evpath, serde_json::to_string_pretty(&ev).unwrap()) {
